@@ -52,6 +52,11 @@ type c20Mut struct {
 	V64   string `json:"v64,omitempty"`    // value: new value, hexadecimal (0x…)
 	VName string `json:"vname,omitempty"`  // value: what boundary the value is (2^63, 2^64-maxpacket, …)
 	Err   string `json:"errv,omitempty"`   // cuterr: the error value the transport returns after the cut (cliErrKinds; "eof" = plain io.EOF)
+	// id (c20_ids.go): a complete, well-formed reply whose REQUEST ID matches no outstanding request. How: foreign (the
+	// reply to the request carries another id) | dup (the reply is delivered twice) | unsol-before / unsol-after (a reply
+	// nobody asked for, before the operation's first request / after its last reply). ID: which id — +0x1000 | 0 | max
+	// (2^32-1) | next (id+1) | prev (id-1) | +2^31, relative to the id of the request answered (unsol: of the last request seen)
+	ID string `json:"id,omitempty"`
 }
 
 type c20Case struct {
@@ -132,6 +137,8 @@ func c20Apply(m c20Mut, valid []byte) (out []byte, cutAfter bool) {
 // than the READ asked for) and the error value the reply stream fails with after the bytes (nil: plain end).
 func c20ApplyReq(m c20Mut, valid []byte, req *wire.Pkt) (out []byte, cutAfter bool, ferr error) {
 	switch m.Kind {
+	case "id":
+		return c20ApplyID(m, valid), false, nil
 	case "value":
 		// a WELL-FORMED reply: one value word replaced
 		b := append([]byte(nil), valid...)
@@ -244,6 +251,8 @@ func (m c20Mut) String() string {
 		return fmt.Sprintf("data-over+%d", m.N)
 	case "trail":
 		return fmt.Sprintf("%s/trail+%d/%s", m.Base, m.N, m.How)
+	case "id":
+		return fmt.Sprintf("%s/unmatched-id/%s/%s", m.Base, m.How, m.ID)
 	}
 	return m.Base + "/" + m.Kind
 }
@@ -286,7 +295,8 @@ func c20Run(cs c20Case) (res c20Res) {
 		fail("tie/new-client", err.Error(), nil)
 		return
 	}
-	var phase atomic.Int32 // 0 setup, 1 measured operation, 2 afterwards
+	var phase atomic.Int32   // 0 setup, 1 measured operation, 2 afterwards
+	var lastID atomic.Uint32 // id of the last request the peer has seen
 	var recv atomic.Int64
 	var mu sync.Mutex
 	cut := false
@@ -295,6 +305,7 @@ func c20Run(cs c20Case) (res c20Res) {
 	go func() {
 		defer close(srvDone)
 		for p := range peer.Reqs {
+			lastID.Store(p.ID())
 			valid := fake.Reply(p)
 			out := valid
 			cutAfter := false
@@ -309,7 +320,7 @@ func c20Run(cs c20Case) (res c20Res) {
 					res.Replies = append(res.Replies, lib.Hex(valid))
 					res.ReqTyps = append(res.ReqTyps, int(p.Typ))
 				}
-				if n == cs.Idx {
+				if n == cs.Idx && !c20Unsolicited(cs.Mut) {
 					out, cutAfter, ferr = c20ApplyReq(cs.Mut, valid, &p)
 					res.Reached = true
 					res.Sent = lib.Hex(out)
@@ -370,6 +381,23 @@ func c20Run(cs c20Case) (res c20Res) {
 	var m0, m1 runtime.MemStats
 	var summary string
 	var operr error
+	// a reply nobody asked for (c20_ids.go): sent by this goroutine, before the operation's first request …
+	unsolicited := func(when string) {
+		if !c20Unsolicited(cs.Mut) || cs.Mut.How != when {
+			return
+		}
+		fr := c20UnsolicitedFrame(cs.Mut, lastID.Load())
+		res.Reached = true
+		res.Sent = lib.Hex(fr)
+		recv.Add(int64(len(fr)))
+		peer.Reply(fr)
+		if when == "unsol-after" {
+			// not an oracle: give the receiver the moment it needs to act on the frame, so that the probe below sees a
+			// settled Client (one that ignores the frame stays usable; one that gives up the session has failed cleanly)
+			cliWithin(300*time.Millisecond, func() { client.Wait() })
+		}
+	}
+	unsolicited("unsol-before")
 	phase.Store(1)
 	runtime.ReadMemStats(&m0)
 	returned := cliWithin(cliDeadline, func() { summary, operr = op.Run(env) })
@@ -409,6 +437,7 @@ func c20Run(cs c20Case) (res c20Res) {
 		fail("alloc/"+cs.Op, fmt.Sprintf("the call allocated %d bytes for %d reply bytes (bound 64·n + 1 MiB = %d)", res.Alloc, res.Recv, bound), res.Alloc)
 	}
 	// ---- afterwards: still usable, or failed cleanly ----
+	unsolicited("unsol-after") // … or after its last reply
 	var fi string
 	var perr error
 	if !cliWithin(cliDeadline, func() { fi, perr = cliFi(client.Stat("probe")) }) {
@@ -618,7 +647,7 @@ func c20Generate(c *lib.Ctx, pairs []c20Pair, dry map[string]c20Res) []c20Case {
 
 func checkC20(c *lib.Ctx) {
 	r := c.R
-	r.Rule = "for each of the client operations of cmd/vh/cli_ops.go (Client and File API incl. Walk, Glob, ReadDirContext over several batches, RemoveAll and MkdirAll over a tree, ReadFrom with every reader interface, ReadFromWithConcurrency; single- and multi-chunk, sequential and concurrent paths; 40-byte file, MaxPacket 16), each option variant of the operation (every operation: MaxPacketUnchecked, MaxPacketChecked, the MaxPacket alias, UseFstat(true) — the last three at reduced density, thorough: quick density; transfers also: UseFstat on/off, UseConcurrentReads false/true, UseConcurrentWrites true/false, MaxConcurrentRequestsPerFile 1/2 and combinations, at full density) and each reply of the operation: the valid reply (from a fake server) cut to every payload length 0…n-1 with a consistent frame length; every length/count/attribute-flags word set to 0, n-1, n+1, 2^31-1, 2^32-1 (flags: |EXTENDED, all ones); every other reply kind (3 STATUS shapes, HANDLE, DATA, NAME x1, NAME x2, ATTRS, EXTENDED_REPLY, VERSION, type 99) with the right id, themselves cut (thorough: every length; quick: 0…8, middle, n-1) and field-edited; PRNG payloads with PRNG type (some with a PRNG id); ill-framed packets (length 0, length > 256 KiB, inflated length then EOF). Further families (c20_more.go): VALUE — well-formed replies whose value words (ATTRS size, uid, gid, permissions, atime, mtime, also inside every NAME entry; the eleven statvfs numbers; the status code) are set to 0, 1, 2^31-1, 2^31, 2^32-1, 2^32, 2^53+1, 2^62, 2^63-1, 2^63, 2^63+1, 2^64-2^15, 2^64-2, 2^64-1, the values around 2^64-k*p, 2^63±p, 64*p, p for both packet sizes p in play (16 and the default 32768), PRNG values with the top bit set and clear; permission words also every file type; for every operation that receives the reply, under every option variant, plus the multi-step value operations of cliValueOps (Seek(End) then Read / Write / WriteTo / ReadFrom; Stat then Truncate(size); ReadFrom from readers announcing MaxInt64, MinInt64, -1) and the transfers on a Client without any MaxPacket option; sizes 2^63, 2^64-2^15, 2^64-1 are in every tier for every pair; every FileInfo / *FileStat / *StatVFS returned is looked at through all its accessors under recover. STREAM CUT — the reply stream cut after N bytes of a reply (quick: first reply of the default variant: every N for frames <= 64 bytes, else 0..13, middle, every 7th, n-1, n; all other replies and variants: 4, 5, 9 and one rotating position; thorough: every N) and then failing with an error value of the table cliErrKinds (io.EOF plain / wrapped / Is-method / joined, io.ErrUnexpectedEOF, io.ErrClosedPipe, os.ErrClosed, net.ErrClosed, deadlines, EPIPE, ECONNRESET, opaque) — exactly after the length word: always a non-EOF value and a rotating one (first reply of the default variant and thorough: every value). OVER — every READ answered with a well-formed DATA reply carrying 1, 9, 16 (one chunk), 200000 bytes more than requested (thorough: also 2, 15, 17, 255, 4096, 32768, 65536 and the largest frame the client accepts -1/0/+1). TRAILING BYTES — replies LONGER than their content: every reply of every operation, and every substituted reply kind (STATUS x3, HANDLE, DATA, NAME x1/x2, ATTRS, EXTENDED_REPLY, VERSION, type 99), complete and well-formed, followed INSIDE the same frame (the length word covers them) by 1, 7, 8 (one more word), 13, 800 bytes of zeros / 0xff / PRNG (rotating; thorough: all three, and 2, 3, 4, 5, 9, 12, 16, 24, 92, 255, 256, 4096, 32768, 200000 bytes with a rotating content), by a whole second reply (length word, type, id, body) or by the body once more; universal option variants: the valid reply in full, three rotating kinds with 8, one rotating size and a second reply. Each case is one fresh Client in a child process (one case at a time; a dead child is re-run alone). Non-trivial = every case whose reply differs from the valid one; distinct by (operation, option variant, reply index, mutation)."
+	r.Rule = "for each of the client operations of cmd/vh/cli_ops.go (Client and File API incl. Walk, Glob, ReadDirContext over several batches, RemoveAll and MkdirAll over a tree, ReadFrom with every reader interface, ReadFromWithConcurrency; single- and multi-chunk, sequential and concurrent paths; 40-byte file, MaxPacket 16), each option variant of the operation (every operation: MaxPacketUnchecked, MaxPacketChecked, the MaxPacket alias, UseFstat(true) — the last three at reduced density, thorough: quick density; transfers also: UseFstat on/off, UseConcurrentReads false/true, UseConcurrentWrites true/false, MaxConcurrentRequestsPerFile 1/2 and combinations, at full density) and each reply of the operation: the valid reply (from a fake server) cut to every payload length 0…n-1 with a consistent frame length; every length/count/attribute-flags word set to 0, n-1, n+1, 2^31-1, 2^32-1 (flags: |EXTENDED, all ones); every other reply kind (3 STATUS shapes, HANDLE, DATA, NAME x1, NAME x2, ATTRS, EXTENDED_REPLY, VERSION, type 99) with the right id, themselves cut (thorough: every length; quick: 0…8, middle, n-1) and field-edited; PRNG payloads with PRNG type (some with a PRNG id); ill-framed packets (length 0, length > 256 KiB, inflated length then EOF). Further families (c20_more.go): VALUE — well-formed replies whose value words (ATTRS size, uid, gid, permissions, atime, mtime, also inside every NAME entry; the eleven statvfs numbers; the status code) are set to 0, 1, 2^31-1, 2^31, 2^32-1, 2^32, 2^53+1, 2^62, 2^63-1, 2^63, 2^63+1, 2^64-2^15, 2^64-2, 2^64-1, the values around 2^64-k*p, 2^63±p, 64*p, p for both packet sizes p in play (16 and the default 32768), PRNG values with the top bit set and clear; permission words also every file type; for every operation that receives the reply, under every option variant, plus the multi-step value operations of cliValueOps (Seek(End) then Read / Write / WriteTo / ReadFrom; Stat then Truncate(size); ReadFrom from readers announcing MaxInt64, MinInt64, -1) and the transfers on a Client without any MaxPacket option; sizes 2^63, 2^64-2^15, 2^64-1 are in every tier for every pair; every FileInfo / *FileStat / *StatVFS returned is looked at through all its accessors under recover. STREAM CUT — the reply stream cut after N bytes of a reply (quick: first reply of the default variant: every N for frames <= 64 bytes, else 0..13, middle, every 7th, n-1, n; all other replies and variants: 4, 5, 9 and one rotating position; thorough: every N) and then failing with an error value of the table cliErrKinds (io.EOF plain / wrapped / Is-method / joined, io.ErrUnexpectedEOF, io.ErrClosedPipe, os.ErrClosed, net.ErrClosed, deadlines, EPIPE, ECONNRESET, opaque) — exactly after the length word: always a non-EOF value and a rotating one (first reply of the default variant and thorough: every value). OVER — every READ answered with a well-formed DATA reply carrying 1, 9, 16 (one chunk), 200000 bytes more than requested (thorough: also 2, 15, 17, 255, 4096, 32768, 65536 and the largest frame the client accepts -1/0/+1). TRAILING BYTES — replies LONGER than their content: every reply of every operation, and every substituted reply kind (STATUS x3, HANDLE, DATA, NAME x1/x2, ATTRS, EXTENDED_REPLY, VERSION, type 99), complete and well-formed, followed INSIDE the same frame (the length word covers them) by 1, 7, 8 (one more word), 13, 800 bytes of zeros / 0xff / PRNG (rotating; thorough: all three, and 2, 3, 4, 5, 9, 12, 16, 24, 92, 255, 256, 4096, 32768, 200000 bytes with a rotating content), by a whole second reply (length word, type, id, body) or by the body once more; universal option variants: the valid reply in full, three rotating kinds with 8, one rotating size and a second reply. UNMATCHED REQUEST ID (c20_ids.go) — complete, well-formed replies of every type (the valid reply and every substituted kind) whose id belongs to no outstanding request: the reply to a request carrying id+0x1000, 0, 2^32-1, id+1, id-1, id+2^31 instead of its id; a reply delivered twice; a reply nobody asked for before the first request of the operation and after its last reply (ids relative to the last request seen); quick: every reply of the default variant × {+0x1000, 0, 2^32-1, one more rotating} for the valid reply, one rotating (kind, id), twice the valid reply and twice a rotating kind, 3+3 unsolicited per operation, other variants 4 rotating cases; thorough: the product. Each case is one fresh Client in a child process (one case at a time; a dead child is re-run alone). Non-trivial = every case whose reply differs from the valid one; distinct by (operation, option variant, reply index, mutation)."
 	workers := runtime.NumCPU()
 	if workers > 16 {
 		workers = 16
@@ -679,6 +708,7 @@ func checkC20(c *lib.Ctx) {
 		cases = append(cases, c20GenCut(c, pairs, dry)...)
 		cases = append(cases, c20GenOver(c, pairs, dry)...)
 		cases = append(cases, c20GenTrail(c, pairs, dry)...)
+		cases = append(cases, c20GenIDs(c, pairs, dry)...)
 		cases = append(cases, c20GenValue(c, pairs, dry)...)
 	}
 	selftest := -1
@@ -759,6 +789,9 @@ func checkC20(c *lib.Ctx) {
 			}
 		case "over":
 			r.Hist("data-over/+" + fmt.Sprint(cs.Mut.N))
+		case "id":
+			r.Hist("unmatched-id/" + cs.Mut.How + "/id=" + cs.Mut.ID)
+			r.Hist("unmatched-id/reply-type/" + cs.Mut.Base)
 		case "trail":
 			r.Hist("trailing-bytes/+" + c20TrailBucket(cs.Mut))
 			r.Hist("trailing-bytes-content/" + cs.Mut.How)
@@ -877,6 +910,9 @@ func c20ActualSent(f lib.Failure) any {
 func c20Describe(cs c20Case) string {
 	if cs.Mut.Kind == "over" {
 		return fmt.Sprintf("well-formed DATA reply to the READ carrying the requested bytes and %d more", cs.Mut.N)
+	}
+	if c20Unsolicited(cs.Mut) {
+		return lib.Hex(c20Base(cs.Mut.Base, 0xAAAAAAAA))
 	}
 	var valid []byte
 	if cs.Mut.Base == "valid" || cs.Mut.Base == "" {
